@@ -12,6 +12,8 @@ type soupIntr struct {
 	AtStep int   `json:"at_step"`
 	NMI    bool  `json:"nmi"`
 	Data   []int `json:"data,omitempty"`
+	// During > 0: raised by a device callback at the During-th bus access of Step AtStep instead of before it
+	During int `json:"during,omitempty"`
 }
 
 type soupAction struct {
@@ -103,6 +105,9 @@ func genSoupIntr(t *rapid.T, c *soupCase, max int) {
 			it.Data = []int{int(rapid.Uint8().Draw(t, "vec"))} // odd vector bytes too: outside C06's domain, the run ends there without verdict in lock-step checks
 		default:
 			it.Data = nil
+		}
+		if rapid.IntRange(0, 3).Draw(t, "byDevice") == 0 {
+			it.During = rapid.IntRange(1, 4).Draw(t, "atAccess")
 		}
 		c.Intr = append(c.Intr, it)
 	}
